@@ -100,6 +100,8 @@ impl RowsetWriter {
         }
 
         for (column_info, column) in rowset.columns_info.iter().zip(rowset.columns) {
+            #[cfg(risinglight_verif)]
+            crate::verif::gate("rowset.write.column").await;
             Self::pipe_to_file(
                 &self.io_backend,
                 path_of_data_column(&self.directory, column_info),
